@@ -1,4 +1,5 @@
 import SwcVerif.Gen.AlgoCtorInit
+import SwcVerif.Refine.PyLemmas
 /-! Refinement for `Gen/AlgoCtorInit.lean` (session 4, T26): what `padding1d` / `Tree.__init__` as translated allocate, and what they alias. -/
 namespace RefineCtorInit
 open Gen.Algo Py
@@ -179,5 +180,72 @@ theorem padding1d_some_ok (h : Bufs) (n pad dt : Int) (a : Arr) (l : List Int) (
         cases ha'; exact absurd hd' hd
     · intro a' ha' hd' _
       cases ha'; exact absurd hd' hd
+
+/-! ### `Tree.__init__` -/
+
+/-- the standard columns in the order of the `ndata` literal: (name, padding value, dtype tag) -/
+def STD : List (String × Int × Int) :=
+  [("id", 0, 0), ("type", 0, 0), ("x", 0, 1), ("y", 0, 1), ("z", 0, 1), ("r", 1, 1), ("pid", 0, 0)]
+
+/-- `k: padding1d(n, kwargs.pop(k, None), padding_value=pad, dtype=dt)` for the listed columns, left to right -/
+def padAll (n : Int) : List (String × Int × Int) → Bufs → Dict String Arr → Dict String Arr → Option (Bufs × Dict String Arr × Dict String Arr)
+  | [], h, kw, acc => some (h, kw, acc)
+  | (k, pad, dt) :: rest, h, kw, acc =>
+    (padding1d h n (dictPopD kw k).2 pad (some dt)).bind fun p => padAll n rest p.1 (dictPopD kw k).1 (Dict.set acc k p.2)
+
+/-- the missing-`id` / missing-`pid` defaults: `np.arange(a, b, step=1, dtype=np.int32)` stored under the key -/
+def withDefault (h : Bufs) (kw : Dict String Arr) (k : String) (a b : Int) : Bufs × Dict String Arr :=
+  if Dict.contains kw k then (h, kw) else ((Bufs.arange h a b 0).1, Dict.set kw k (Bufs.arange h a b 0).2)
+
+/-- what `Py.seq s1 s2` does with the outcome of `s1` -/
+def after {V R : Type} (r : Res V R) (s2 : V → Res V R) : Res V R :=
+  match r with
+  | .next v' => s2 v'
+  | .brk v' => .brk v'
+  | .cont v' => .cont v'
+  | .ret v' x => .ret v' x
+  | .err => .err
+
+theorem seq_after {V R : Type} (s1 s2 : V → Res V R) (v : V) : Py.seq s1 s2 v = after (s1 v) s2 := rfl
+
+@[simp] theorem after_next {V R : Type} (v : V) (s2 : V → Res V R) : after (.next v) s2 = s2 v := rfl
+
+/-- one fallible call in front of the rest of a statement -/
+theorem peel {V β γ : Type} (g : V × Unit → γ) (S : V → Res V Unit) (o : Option β) (K : β → Res V Unit) (K' : β → Option γ)
+    (h : ∀ a, Option.map g (Py.finish default (after (K a) S)) = K' a) :
+    Option.map g (Py.finish default (after (Py.bind o K) S)) = o.bind K' := by
+  cases o with
+  | none => rfl
+  | some a => simpa [Py.bind] using h a
+
+theorem contains_set_ne (d : Dict String Arr) (k k' : String) (x : Arr) (hk : k' ≠ k) :
+    Dict.contains (Dict.set d k x) k' = Dict.contains d k' := by
+  simp [Dict.contains, Py.Dict.get?_set, hk]
+
+/-- **`Tree.__init__` as translated is**: default `id` / `pid` when missing, the seven `padding1d` calls in order (each popping its key),
+then `ndata` followed by the columns that are left -/
+theorem tree_init_eq (h : Bufs) (n : Int) (kw : Dict String Arr) :
+    tree_init h n kw =
+      (padAll n STD (withDefault (withDefault h kw "id" 0 n).1 (withDefault h kw "id" 0 n).2 "pid" (-1) (n - 1)).1
+          (withDefault (withDefault h kw "id" 0 n).1 (withDefault h kw "id" 0 n).2 "pid" (-1) (n - 1)).2 []).map
+        fun p => (p.1, dictMerge p.2.2 p.2.1, ()) := by
+  simp only [tree_init, tree_init.body, padAll, STD, withDefault, Option.map_bind]
+  by_cases h1 : Dict.contains kw "id" = true <;> by_cases h2 : Dict.contains kw "pid" = true <;>
+    simp only [seq_after, after_next, h1, h2, Bool.not_true, Bool.not_false, Bool.false_eq_true, if_false, if_true, Py.skip,
+      contains_set_ne _ "id" "pid" _ (by decide)] <;>
+    (refine peel _ _ _ _ _ (fun a1 => ?_)
+     simp only [Function.comp_apply, Option.map_bind]
+     refine peel _ _ _ _ _ (fun a2 => ?_)
+     simp only [Function.comp_apply, Option.map_bind]
+     refine peel _ _ _ _ _ (fun a3 => ?_)
+     simp only [Function.comp_apply, Option.map_bind]
+     refine peel _ _ _ _ _ (fun a4 => ?_)
+     simp only [Function.comp_apply, Option.map_bind]
+     refine peel _ _ _ _ _ (fun a5 => ?_)
+     simp only [Function.comp_apply, Option.map_bind]
+     refine peel _ _ _ _ _ (fun a6 => ?_)
+     simp only [Function.comp_apply, Option.map_bind]
+     refine peel _ _ _ _ _ (fun a7 => ?_)
+     rfl)
 
 end RefineCtorInit
